@@ -14,6 +14,11 @@ where
     D: Deserializer<'de>,
 {
     let duration: NtpDuration = Deserialize::deserialize(deserializer)?;
+    if duration < NtpDuration::ZERO {
+        return Err(serde::de::Error::custom(
+            "the accumulated step panic threshold cannot be negative",
+        ));
+    }
     Ok(if duration == NtpDuration::ZERO {
         None
     } else {
